@@ -119,6 +119,7 @@ func runC01(r *engine.Run) {
 			c.Fail("data/decoder-refuses-own-encoding", fmt.Sprintf("%x: %v", wire, err), nil)
 			return
 		}
+		observe(&q) // a receiver logs the frame it decoded
 		c.NonTrivial()
 		if q.MIC != p.MIC {
 			c.Fail("data/mic-not-preserved", fmt.Sprintf("%x", q.MIC[:]), nil)
@@ -189,6 +190,7 @@ func runC01(r *engine.Run) {
 			c.Fail("data/decoder-refuses-spec-valid-frame", fmt.Sprintf("%x: %v", wire, err), nil)
 			return
 		}
+		observe(&p) // a receiver logs the frame it decoded
 		mp := p.MACPayload.(*lorawan.MACPayload)
 		g := f
 		var newCmds []spec.Cmd
@@ -376,6 +378,7 @@ func runC01(r *engine.Run) {
 			if err := q.UnmarshalBinary(wire); err != nil {
 				return nil, err
 			}
+			observe(&q) // a receiver logs the frame it decoded
 			mp := q.MACPayload.(*lorawan.MACPayload)
 			if inFRM {
 				err := q.DecodeFRMPayloadToMACCommands()
@@ -499,6 +502,7 @@ func runC01(r *engine.Run) {
 			c.Fail("join/decoder-refuses-own-encoding", err.Error(), nil)
 			return
 		}
+		observe(&q) // a receiver logs the frame it decoded
 		if deepPrint(q) != deepPrint(p) {
 			c.Fail(fmt.Sprintf("join/decoded-frame-differs/type%d", ch[0]), fmt.Sprintf("%s vs %s", deepPrint(q), deepPrint(p)), nil)
 		}
@@ -659,6 +663,7 @@ func runC01(r *engine.Run) {
 			c.Fail("proprietary/decoder-refuses-own-encoding", fmt.Sprintf("length %d: %v", c.Index, err), nil)
 			return
 		}
+		observe(&q) // a receiver logs the frame it decoded
 		dp, ok := q.MACPayload.(*lorawan.DataPayload)
 		if !ok || !bytes.Equal(dp.Bytes, body) || q.MIC != p.MIC || q.MHDR != p.MHDR {
 			c.Fail("proprietary/decoded-frame-differs", fmt.Sprintf("length %d", c.Index), nil)
